@@ -310,7 +310,77 @@ def refs(tier="quick"):
         cases += 1
         if (o[0] != o[1] or calls[0] != calls[1]) and len(bad) < 10:
             bad.append(f"lru maxsize={maxsize} {ops}: functools {o[0]} vs spec {o[1]}")
-    return {"cases": cases, "violations": bad}
+    # lru_cache used as a method / classmethod / staticmethod: keyed on the instance, one shared store and statistics
+    import asyncio
+    import asyncstdlib as a
+    for trial in range(150 if tier == "quick" else 800):
+        maxsize = rnd.choice([None, 0, 1, 2, 3])
+        typed = rnd.choice([False, True])
+        ops = [(rnd.choice(["m", "c", "s", "info", "clear"]), rnd.randint(0, 1), rnd.choice([1, 1.0, 2, "1"])) for _ in range(rnd.randint(1, 20))]
+
+        def build(deco, is_async):
+            calls = []
+            if is_async:
+                class C:
+                    @deco
+                    async def m(self, x):
+                        calls.append(("m", x)); return ("m", id(self) % 7 * 0, x, len(calls))
+                    @classmethod
+                    @deco
+                    async def c(cls, x):
+                        calls.append(("c", x)); return ("c", x, len(calls))
+                    @staticmethod
+                    @deco
+                    async def s(x):
+                        calls.append(("s", x)); return ("s", x, len(calls))
+            else:
+                class C:
+                    @deco
+                    def m(self, x):
+                        calls.append(("m", x)); return ("m", id(self) % 7 * 0, x, len(calls))
+                    @classmethod
+                    @deco
+                    def c(cls, x):
+                        calls.append(("c", x)); return ("c", x, len(calls))
+                    @staticmethod
+                    @deco
+                    def s(x):
+                        calls.append(("s", x)); return ("s", x, len(calls))
+            return C, calls
+        CA, calls_a = build(a.lru_cache(maxsize=maxsize, typed=typed), True)
+        CS, calls_s = build(_ft.lru_cache(maxsize=maxsize, typed=typed), False)
+
+        async def drive_async():
+            objs = [CA(), CA()]
+            out = []
+            for op, i, x in ops:
+                o = objs[i]
+                if op in "mcs":
+                    out.append(await getattr(o, op)(x))
+                elif op == "info":
+                    out.append(tuple(CA.m.cache_info()))
+                else:
+                    CA.m.cache_clear()
+            return out
+
+        def drive_sync():
+            objs = [CS(), CS()]
+            out = []
+            for op, i, x in ops:
+                o = objs[i]
+                if op in "mcs":
+                    out.append(getattr(o, op)(x))
+                elif op == "info":
+                    out.append(tuple(CS.m.cache_info()))
+                else:
+                    CS.m.cache_clear()
+            return out
+        ra, rs = asyncio.run(drive_async()), drive_sync()
+        cases += 1
+        if (ra != rs or calls_a != calls_s) and len(bad) < 10:
+            bad.append(f"lru methods maxsize={maxsize} typed={typed} {ops}: asyncstdlib {ra} vs functools {rs}")
+    return {"cases": cases, "violations": [b for b in bad if not b.startswith("lru methods")],
+            "lru_method_violations": [b for b in bad if b.startswith("lru methods")]}
 
 
 if __name__ == "__main__":
